@@ -80,7 +80,10 @@ def configs(tier):
     out = []
 
     def add(fn, key, **params):
-        out.append({"key": key, "fn": fn, "params": params})
+        cfg = {"key": key, "fn": fn, "params": params}
+        if fn == "h_cross" and "rank-deficient" not in key:
+            cfg["options"] = {"full_rank": True}
+        out.append(cfg)
 
     shapes = [(4, 2, 2), (3, 3, 2)] if tier == "quick" else [(4, 2, 2), (3, 3, 2), (5, 3, 3), (3, 4, 2)]
     for cls in ("EOF", "ComplexEOF"):
@@ -111,7 +114,8 @@ def configs(tier):
         add("h_cross", f"{cls}|pca=0", cls=cls, n=4, p=2, q=2, k=2, use_pca=False)
         if tier == "thorough":
             add("h_cross", f"{cls}|pca=1|p3", cls=cls, n=5, p=3, q=2, k=2, use_pca=True)
-    add("h_cross", "ComplexCPCCA|alpha=0.5", cls="ComplexCPCCA", n=4, p=2, q=2, k=2, alpha=0.5, use_pca=False, cplx=True)
+    if tier == "thorough":
+        add("h_cross", "ComplexCPCCA|alpha=0.5", cls="ComplexCPCCA", n=4, p=2, q=2, k=2, alpha=0.5, use_pca=False, cplx=True)
     add("h_cross", "ComplexMCA", cls="ComplexMCA", n=4, p=2, q=2, k=2, use_pca=False, cplx=True)
     # cross-set rotators
     for alpha in alphas:
